@@ -98,7 +98,7 @@ def closedAt (d : Doc) (k : Kind) : Bool := (refs d k).all (fun r => (defs d k).
 def closed (d : Doc) : Bool := Kind.all.all (closedAt d)
 
 /-- identifiers are unique within their list -/
-def uniqueAt (d : Doc) (k : Kind) : Bool := (defs d k).eraseDups.length == (defs d k).length
+def uniqueAt (d : Doc) (k : Kind) : Bool := nodupB (defs d k)
 def unique (d : Doc) : Bool := Kind.all.all (uniqueAt d)
 
 /-- every sequence's parent is listed before the sequence -/
